@@ -931,6 +931,62 @@ func verifLenIsHeaderPlusLength(p *PathAttribute) bool {
 //@   claims at-return
 //@   at-return requires ret1 == nil ==> len(ret0) >= 10 && int(ret0[9]) == len(ret0) - 10
 
+// BGP-LS TLVs built by the constructors (the path the API takes): the Length they carry is the length of the value
+// their Serialize writes (LsTLV.Serialize refuses a TLV whose Length disagrees - "LS TLV malformed")
+//@ props C04
+//@ func NewLsTLVLocalIPv6RouterID
+//@   requires l != nil
+//@   claims post
+//@   ensures result != nil && int(result.Length) == 16
+//@ func NewLsTLVRemoteIPv6RouterID
+//@   requires l != nil
+//@   claims post
+//@   ensures result != nil && int(result.Length) == 16
+//@ func NewLsTLVPrefixSID
+//@   requires l != nil
+//@   claims post
+//@   ensures result != nil && int(result.Length) == 8
+// SR capabilities / SR local block: flags and a reserved octet, then per range 3 octets of range size and a SID/Label
+// TLV of 4 + 4 octets
+//@ func NewLsTLVSrCapabilities
+//@   requires l != nil
+//@   claims inv-init inv-keep step
+//@   loop 0 invariant pre(length) == 2
+//@   loop 0 step int(length) == (header(int(length)) + 11) % 65536
+//@ func NewLsTLVSrLocalBlock
+//@   requires l != nil
+//@   claims inv-init inv-keep step
+//@   loop 0 invariant pre(length) == 2
+//@   loop 0 step int(length) == (header(int(length)) + 11) % 65536
+//@ func NewLsTLVOpaquePrefixAttr
+//@   requires l != nil && len(*l) <= 65535
+//@   claims post
+//@   ensures result != nil && int(result.Length) == len(*l)
+
+// Tunnel Encapsulation sub-TLVs built by the constructors: the Length they carry (what Len() and the attribute's
+// Length, hence the packers' budget, are computed from) is the length of the value their Serialize writes
+//@ props C04 C11
+//@ func NewTunnelEncapSubTLVUnknown
+//@   requires len(value) <= 65535
+//@   claims post
+//@   ensures result != nil && int(result.Length) == len(value)
+//@ func NewTunnelEncapSubTLVEncapsulation
+//@   requires len(cookie) <= 65000
+//@   claims post
+//@   ensures result != nil && int(result.Length) == 4 + len(cookie)
+//@ func NewTunnelEncapSubTLVProtocol
+//@   claims post
+//@   ensures result != nil && int(result.Length) == 2
+//@ func NewTunnelEncapSubTLVColor
+//@   claims post
+//@   ensures result != nil && int(result.Length) == 8
+//@ func NewTunnelEncapSubTLVUDPDestPort
+//@   claims post
+//@   ensures result != nil && int(result.Length) == 2
+//@ func NewTunnelEncapSubTLVEgressEndpoint
+//@   claims post
+//@   ensures result1 == nil ==> result0 != nil && int(result0.Length) == 6 + (address.Is4() ? 4 : 16)
+
 // EVPN I-PMSI route (type 9): what the encoder writes is what Len() announces - RD (8) and Ethernet tag (4), then the
 // extended community directly after them - and the decoder knows the route type its own encoder emits
 //@ props C04
